@@ -548,6 +548,8 @@ int main(int argc, char** argv) {
           if (next_id > 0) {
             tails.push_back(W(0x80000010u) + W(0) + W(9) + W(0) + W(next_id));       // deps record naming an unknown id
             tails.push_back(W(0x80000010u) + W(next_id + 3) + W(9) + W(0) + W(0));   // unknown output id
+            tails.push_back(W(0x80000010u) + W(next_id) + W(9) + W(0) + W(0));       // the first id that does not exist yet
+            tails.push_back(W(0x8000000cu) + W(next_id) + W(9) + W(0));              // the same without dependencies
             tails.push_back(W(0x8000000eu) + W(0) + W(9) + W(0) + string("\0\0", 2)); // size not a multiple of 4
             tails.push_back(W(8) + cur.paths[0].substr(0, 4) + string(4 - std::min<size_t>(4, cur.paths[0].size()), '\0') + W(~next_id));  // duplicate path
           }
